@@ -359,6 +359,9 @@ func encryptedAssertionWith(data, wrapped []byte, o EncOpts, ap string) *etree.E
 	ed := ea.CreateElement("xenc:EncryptedData")
 	ed.CreateAttr("xmlns:xenc", "http://www.w3.org/2001/04/xmlenc#")
 	ed.CreateAttr("Type", "http://www.w3.org/2001/04/xmlenc#Element")
+	// the optional Id is the SENDER's choice (anyone can encrypt to the SP): two identifiers only, so that different
+	// ciphertexts — genuine ones and an attacker's — meet under one Id on a long-lived service provider
+	ed.CreateAttr("Id", []string{"_encrypted-assertion", "_ed1"}[len(data)%2])
 	ed.CreateElement("xenc:EncryptionMethod").CreateAttr("Algorithm", o.DataAlg)
 	ki := ed.CreateElement("ds:KeyInfo")
 	ki.CreateAttr("xmlns:ds", "http://www.w3.org/2000/09/xmldsig#")
